@@ -84,6 +84,7 @@ fn case_class(c: &Value) -> String {
         "dis" => "disassembler".into(),
         "run" => "interpreter+jit".into(),
         "seq" => "api-sequence".into(),
+        "hlp" => "helpers".into(),
         x => x.into(),
     }
 }
@@ -307,6 +308,57 @@ pub fn run(s: &mut Sink) {
         s.sample("run", || cases.first().cloned().unwrap_or(json!(null)));
         compare(s, &mut twin, cases);
         s.done("interpreter and JIT corpus");
+    }
+    // built-in helpers present in both builds (gather_bytes, memfrob, strcmp)
+    {
+        let g0 = 4000u64;
+        if s.take(g0) {
+            let mut cases = vec![];
+            for pos in 0..5 {
+                for x in [0u64, 1, 0x7f, 0x80, 0xff, 0x100, 0xffff_ffff, u64::MAX] {
+                    let mut a = [0x11u64, 0x22, 0x33, 0x44, 0x55];
+                    a[pos] = x;
+                    cases.push(json!({"k":"hlp","name":"gather","args":a}));
+                }
+            }
+            let data: Vec<u8> = (0..80u8).map(|k| k.wrapping_mul(29).wrapping_add(3)).collect();
+            for off in 0..8u64 {
+                for len in (0..=40u64).chain([63, 64, 65, 72]) {
+                    if off + len <= 80 {
+                        cases.push(json!({"k":"hlp","name":"memfrob","args":[off, len, 0, 7, u64::MAX],"bufs":[hex(&data)]}));
+                    }
+                }
+            }
+            let alpha = [0x01u8, 0x61, 0x7f, 0x80, 0xff];
+            let mut strs: Vec<Vec<u8>> = vec![vec![]];
+            for a in alpha {
+                strs.push(vec![a]);
+                for b in alpha {
+                    strs.push(vec![a, b]);
+                }
+            }
+            // longer strings: a common prefix with and without bytes >= 0x80
+            for l in [7usize, 8, 9, 16, 17, 40] {
+                for fill in [0x61u8, 0xc3] {
+                    for tail in [vec![], vec![0x61], vec![0x62], vec![0xff]] {
+                        let mut x = vec![fill; l];
+                        x.extend(tail);
+                        strs.push(x);
+                    }
+                }
+            }
+            for a in &strs {
+                for b in &strs {
+                    for third in [0u64, 3] {
+                        cases.push(json!({"k":"hlp","name":"strcmp","args":[third, 0, 0],"bufs":[hex(a), hex(b)]}));
+                    }
+                }
+            }
+            s.count("helper_cases", cases.len() as u64);
+            s.sample("hlp", || cases.last().cloned().unwrap_or(json!(null)));
+            compare(s, &mut twin, cases);
+            s.done("built-in helpers present in both builds");
+        }
     }
     // API sequences on one VM object: every VM kind, every sequence of <= 4 calls after new()
     {
